@@ -38,6 +38,12 @@ checks = []
 for pid in sorted(CLAIMED):
     tech, text, note, ref = CLAIMED[pid]
     note = note + finding_status(pid, note + ' ' + text)
+    # the theorem list of today, read from the file (the prose above may predate later proof and referee passes)
+    src = open(os.path.join(HERE, 'lean', 'OptiModel', 'Props', pid + '.lean')).read()
+    src = re.sub(r'/-.*?-/', '', src, flags=re.S)
+    names = re.findall(r'^\s*(?:private\s+|protected\s+)?theorem\s+([^\s:({\[]+)', src, flags=re.M)
+    note += ' Theorems in lean/OptiModel/Props/%s.lean today (%d, helper lemmas included; every one is audited with #print axioms on each run): %s.' % (
+        pid, len(names), ', '.join(names))
     checks.append({
         'property_id': pid,
         'quick_cmd': './check %s --tier quick' % pid,
